@@ -52,6 +52,9 @@ CHECKS = {
  "C09": dict(cat="other", engine="mirsym", tech="bounded symbolic execution of rustc MIR (own engine) with z3 validity queries against a reference decision table; CLI replay",
              text="Every path of the walk's decision functions and of the closures carrying the nesting level is enumerated symbolically from the MIR of the working tree (environment calls are free symbols); z3 decides for all option values and all 64-bit levels/depths/sizes that the effects equal the documented decision table. Bounded symbolic execution, not a proof: loops over directory entries are cut after one iteration (each entry is handled by the same closure).",
              note="Trusted: my MIR front end and summaries (lib/mirsym.py, lib/summaries.py), rustc's MIR dump, z3; the `ignore` crate, glob matching (C16) and real directory iteration are outside the claim.", ref="DESIGN.md §3 C09"),
+ "C15": dict(cat="other", engine="mirsym", tech="bounded symbolic execution of rustc MIR with every I/O result symbolic (z3 validity per path) + Kani/CBMC on hasher::scan/stream_hash with a failing model reader; CLI replay under an LD_PRELOAD fault shim",
+             text="Faults are symbolic variables: each I/O call on the analysed paths returns an arbitrary Ok/Err. Kani/CBMC decides on the compiled hasher::scan/stream_hash (stream <= 4 bytes, arbitrary short reads, the k-th read failing) that a failed read never yields a hash; z3 decides on the MIR of file_hash, hash_file, hash_transformed, the *_or_log_err wrappers, the hash closure of every stage, rehash's task closure, file_info_or_log_err, FileInfo::new, scan_files' consumer, visit_path/visit_link/visit_dir, run's roots loop, sorted_entries and update_file_locations that an error removes exactly the failing entry (no hash, no stand-in hash, no cache entry, warning unless NotFound), that no panic is conditional on an I/O error and that the roots loop continues. Kernel-level: the end-to-end statement follows with C03's wiring facts.",
+             note="Trusted: MIR front end + summaries (lib/optsum.py: Option/Result combinators execute their closure bodies), z3, Kani translation + model reader; error reporting of std::fs / child processes. Real syscall-level fault injection only in the replay step.", ref="DESIGN.md §3 C15"),
 }
 
 NOT_YET = {}
